@@ -6,9 +6,9 @@
   model   : `cellIDFromPoint` in the soft-float (bit-exact), `Cell.ContainsPoint` of the 31 ancestors.
   property: (on the implementation's own output) the id is a valid leaf, the mask is all ones, and — exact
             judge — the point's exact (u,v) on the leaf's face lies in every ancestor's closed uv-rectangle
-            expanded by the documented margin: `dblEpsilon` (the expansion in ContainsPoint) plus
-            `maxXYZtoUVError = dblEpsilon/2` (the documented error of the float division that ContainsPoint
-            compares) plus dblEpsilon/2 for the rounding of `lo − margin`; together 2·dblEpsilon.
+            expanded by the documented margin: `2·dblEpsilon` (the expansion in ContainsPoint after repair D46;
+            it was `dblEpsilon`) plus `maxXYZtoUVError = dblEpsilon/2` (the documented error of the float division
+            that ContainsPoint compares) plus dblEpsilon/2 for the rounding of `lo − margin`; together 3·dblEpsilon.
 -/
 import Oracle.Basic
 import Oracle.C12Judge
@@ -20,11 +20,11 @@ def modelMask (id : CellID) (p : V3) : Nat :=
   (List.range 31).foldl (fun m l =>
     if containsPoint (cellFromCellID (parent id l)) p then m ||| (1 <<< l) else m) 0
 
-/-- exact: `lo − 2eps ≤ t.x/t.z ≤ hi + 2eps` and the same for y, with t.z > 0 (t = point in the face's uvw frame) -/
+/-- exact: `lo − 3eps ≤ t.x/t.z ≤ hi + 3eps` and the same for y, with t.z > 0 (t = point in the face's uvw frame) -/
 def exactInExpanded (c : Cell) (p : V3) : Bool :=
   let t := faceXYZtoUVW c.face p
   let tx := Dy.ofF64 t.x; let ty := Dy.ofF64 t.y; let tz := Dy.ofF64 t.z
-  let m := Dy.pow2 (-51)
+  let m := Dy.add (Dy.pow2 (-51)) (Dy.pow2 (-52))
   let ge (a : Dy) (b : Dy) : Bool := (Dy.sub a b).sign ≥ 0
   tz.sign > 0 &&
   ge tx (Dy.mul (Dy.sub (Dy.ofF64 c.uv.1.1) m) tz) && ge (Dy.mul (Dy.add (Dy.ofF64 c.uv.1.2) m) tz) tx &&
